@@ -683,3 +683,76 @@ def eqsrc(node, src):
     if isinstance(want, ast.Expr) and not isinstance(node, ast.stmt):
         want = want.value
     return node is not None and _canon_bound(node) == _canon_bound(want)
+
+
+def call_arguments(fnode, call, params, func=None):
+    """{parameter name: argument expression} for a call with the callee's
+    parameter names `params` (self excluded).  `**d` is expanded where d is
+    a dictionary display with constant keys or a dict(k=v, ...) call -
+    written in place or held by a local of the function `fnode` that is
+    assigned once and not otherwise touched.  Returns (mapping, rest) where
+    rest lists the `*x` / `**x` arguments that could not be expanded."""
+    out, rest = {}, []
+    pos = 0
+    for a in call.args:
+        if isinstance(a, ast.Starred):
+            rest.append(a)
+            continue
+        if pos < len(params):
+            out[params[pos]] = a
+        pos += 1
+
+    def pairs_of(d):
+        if isinstance(d, ast.Call) and dotted(d.func) == 'dict' and \
+                not d.args and all(x.arg for x in d.keywords):
+            return [(x.arg, x.value) for x in d.keywords]
+        if isinstance(d, ast.Dict) and d.keys and all(
+                k is not None and const_str(k) is not None for k in d.keys):
+            return [(const_str(k), v) for k, v in zip(d.keys, d.values)]
+        if isinstance(d, ast.DictComp) and len(d.generators) == 1 and \
+                not d.generators[0].ifs and \
+                isinstance(d.generators[0].target, ast.Name) and \
+                isinstance(d.generators[0].iter, (ast.Tuple, ast.List)) and \
+                all(const_str(e) is not None
+                    for e in d.generators[0].iter.elts):
+            import copy as _copy
+            var = d.generators[0].target.id
+            res = []
+            for e in d.generators[0].iter.elts:
+                class S(ast.NodeTransformer):
+                    def visit_Name(self, n):
+                        if n.id == var and isinstance(n.ctx, ast.Load):
+                            return ast.copy_location(
+                                ast.Constant(value=e.value), n)
+                        return n
+                kx = S().visit(_copy.deepcopy(d.key))
+                vx = S().visit(_copy.deepcopy(d.value))
+                if const_str(kx) is None:
+                    return None
+                res.append((const_str(kx), vx))
+            return res
+        return None
+    for k in call.keywords:
+        if k.arg is not None:
+            out[k.arg] = k.value
+            continue
+        d = k.value
+        if isinstance(d, ast.Name) and fnode is not None:
+            uses = [n for n in walk_no_nested(fnode)
+                    if isinstance(n, ast.Name) and n.id == d.id]
+            defs = [n for n in walk_no_nested(fnode)
+                    if isinstance(n, ast.Assign) and len(n.targets) == 1 and
+                    isinstance(n.targets[0], ast.Name) and
+                    n.targets[0].id == d.id]
+            d = defs[0].value if len(defs) == 1 and len(uses) == 2 else None
+        ps = pairs_of(d) if d is not None else None
+        if ps is None and d is not None and func is not None:
+            # a helper that returns the dictionary
+            from .flow import value_of
+            ps = pairs_of(value_of(func, d))
+        if ps is None:
+            rest.append(k)
+        else:
+            for kk, v in ps:
+                out[kk] = v
+    return out, rest
